@@ -70,6 +70,32 @@ def run(tier, seed, replay):
     }
     for c in L.contracts():
         chk.run_contract(E, c, replay=replays.get(c.key.split(":")[1]))
+    # the functions counter: IsFuncDeclaration.run counts exactly one function per match
+    from ..specs import registry as SR
+    E3 = chk.engine()
+    SR.install(E3)
+    fd, cff = SR.func_declaration()
+    E3.contracts[cff.key] = cff
+    chk.run_contract(E3, fd)
+    # who may write the counters (complete AST facts)
+    import ast as _ast
+    from ..frames import scan as _scan
+    writers = {"functions": set(), "vars": set(), "lines": set()}
+    for rel, tree in _scan.iter_modules(chk.repo):
+        par = _scan.parents(tree)
+        for x in _ast.walk(tree):
+            if isinstance(x, _ast.Attribute) and isinstance(x.ctx, (_ast.Store, _ast.Del)) and x.attr in writers:
+                writers[x.attr].add(f"{rel}:{_scan.enclosing_function(x, par)}")
+    allowed = {
+        "functions": {"norminette/scope.py:GlobalScope.__init__", "norminette/rules/is_func_declaration.py:IsFuncDeclaration.run"},
+        "vars": {"norminette/scope.py:Scope.__init__", "norminette/rules/check_variable_declaration.py:CheckVariableDeclaration.run"},
+        "lines": {"norminette/scope.py:Scope.__init__", "norminette/scope.py:Scope.outer",
+                  "norminette/rules/check_line_count.py:CheckLineCount.run"},
+    }
+    for k in writers:
+        extra = sorted(writers[k] - allowed[k])
+        chk.frame(f"frame.scope.{k}.written_only_by_its_counter", not extra, {"writers": sorted(writers[k])},
+                  what=f"scope.{k} is written outside its counting rule: {extra}")
 
     # ---- bounded stand-ins for the composition assumptions (labelled bounded) ----
     if "r" not in line_search:
@@ -103,6 +129,8 @@ def run(tier, seed, replay):
             "replay": {"op": "pipeline", "text": c["text"], "name": "a.c", "expect": m},
             "confirmed_on_real_code": True}, what=m, confirmed=True)
     chk.assumptions += [
+        "IsFuncDeclaration.check_func_format is used through an assumed call-site contract (a match reports a "
+        "position >= 1; it does not write scope.functions: complete AST fact)",
         "composition assumptions A3.1-A3.3 (scope.lines == body lines + 1 at the closing brace; functions / vars "
         "count definitions / declarations) are only checked by the bounded stand-in",
         "width lemma: a newline-terminated line of width w ends with a NEWLINE token at column w+1 (from the C09 "
